@@ -60,7 +60,8 @@ theorem C05_mode_recorded {s s' : State} {t : Tid} {cnd : Option Cond} {dl : Opt
 theorem wait_ret_inv {cfg : Cfg} {s s' : State} {t : Tid} {cnd : Option Cond} {dl : Option Int} {note : Bool} {res : Res}
     (h : step cfg s (.ret t (.wait cnd dl note) res) = .ok s') :
     ∃ c cit, s.pc t = .mwRet c cit ∧ cnd = c.cond ∧ dl = c.dl ∧ note = c.note ∧
-      res = .outc (if cit then .ok else c.outc) ∧ s' = setHeld (dropW (setPc s t .idle) c.w) t (some c.l) := by
+      res = .outc (if cit then .ok else c.outc) ∧
+      ∃ ss, s' = { setHeld (dropW (setPc s t .idle) c.w) t (some c.l) with secStart := ss } := by
   simp only [step, stepRet] at h
   split at h
   all_goals first
@@ -78,42 +79,45 @@ theorem wait_ret_inv {cfg : Cfg} {s s' : State} {t : Tid} {cnd : Option Cond} {d
     · rw [if_neg hn2] at h
       simp only [not_or, Decidable.not_not] at hn1 hn2
       cases h
-      exact ⟨c, cit, heq, hn1.1, hn1.2.1, hn1.2.2, by rw [hn2], rfl⟩
+      refine ⟨c, cit, heq, hn1.1, hn1.2.1, hn1.2.2, by rw [hn2], ?_⟩
+      split
+      · exact ⟨_, rfl⟩
+      · exact ⟨_, rfl⟩
 
 theorem C05_mode {cfg : Cfg} {s s' : State} {t : Tid} {cnd : Option Cond} {dl : Option Int} {note : Bool} {res : Res}
     (hr : Reachable cfg s) (h : step cfg s (.ret t (.wait cnd dl note) res) = .ok s') :
     ∃ c cit, s.pc t = .mwRet c cit ∧ s'.held t = some c.hm ∧ shareOf s' t = some c.hm ∧
       (c.hm = .W → s'.wOwner = some t ∧ s'.word.wlock = true ∧ s'.word.readers = 0) ∧
       (c.hm = .R → t ∈ s'.rOwners ∧ s'.word.readers ≠ 0 ∧ s'.word.wlock = false) := by
-  obtain ⟨c, cit, heq, -, -, -, -, rfl⟩ := wait_ret_inv h
+  obtain ⟨c, cit, heq, -, -, -, -, ss, rfl⟩ := wait_ret_inv h
   have inv := reachable_inv1 hr
   have inv' := inv1_step inv h
   have hok := inv.pcok t; rw [heq] at hok
   have hl : c.l = c.hm := hok.1.1
-  have hheld : (setHeld (dropW (setPc s t .idle) c.w) t (some c.l)).held t = some c.hm := by simp [setFn, hl]
-  have hsh : shareOf (setHeld (dropW (setPc s t .idle) c.w) t (some c.l)) t = some c.hm := by
+  have hheld : ({ setHeld (dropW (setPc s t .idle) c.w) t (some c.l) with secStart := ss } : State).held t = some c.hm := by simp [setFn, hl]
+  have hsh : shareOf ({ setHeld (dropW (setPc s t .idle) c.w) t (some c.l) with secStart := ss } : State) t = some c.hm := by
     simp [shareOf, tshare, setFn, hl]
   refine ⟨c, cit, heq, hheld, hsh, ?_, ?_⟩
   · intro hm
     rw [hm] at hsh
     have hown := (inv'.lock.wown t).2 hsh
-    have hwl : (setHeld (dropW (setPc s t .idle) c.w) t (some c.l)).word.wlock = true := by rw [inv'.lock.wl, hown]; rfl
+    have hwl : ({ setHeld (dropW (setPc s t .idle) c.w) t (some c.l) with secStart := ss } : State).word.wlock = true := by rw [inv'.lock.wl, hown]; rfl
     exact ⟨hown, hwl, inv'.lock.excl hwl⟩
   · intro hm
     rw [hm] at hsh
     have hmem := (inv'.lock.rown t).2 hsh
-    have hne : (setHeld (dropW (setPc s t .idle) c.w) t (some c.l)).word.readers ≠ 0 := by
+    have hne : ({ setHeld (dropW (setPc s t .idle) c.w) t (some c.l) with secStart := ss } : State).word.readers ≠ 0 := by
       rw [inv'.lock.rd]; intro e
       rw [List.length_eq_zero_iff.mp e] at hmem; cases hmem
     refine ⟨hmem, hne, ?_⟩
-    cases hw : (setHeld (dropW (setPc s t .idle) c.w) t (some c.l)).word.wlock with
+    cases hw : ({ setHeld (dropW (setPc s t .idle) c.w) t (some c.l) with secStart := ss } : State).word.wlock with
     | false => rfl
     | true => exact absurd (inv'.lock.excl hw) hne
 
 theorem C05_mu_wait_0 {cfg : Cfg} {s s' : State} {t : Tid} {cnd : Option Cond} {dl : Option Int} {note : Bool} {o : Outc}
     (hr : Reachable cfg s) (h : step cfg s (.ret t (.wait cnd dl note) (.outc o)) = .ok s') :
     (o = .ok ↔ evalOpt s.data cnd = true) ∧ (o = .ok ↔ evalOpt s'.data cnd = true) := by
-  obtain ⟨c, cit, heq, rfl, -, -, ho, rfl⟩ := wait_ret_inv h
+  obtain ⟨c, cit, heq, rfl, -, -, ho, ss, rfl⟩ := wait_ret_inv h
   have inv1 := reachable_inv1 hr
   have inv2 := reachable_inv2 hr
   have hok := inv1.pcok t; rw [heq] at hok
@@ -129,7 +133,7 @@ theorem C05_mu_wait_0 {cfg : Cfg} {s s' : State} {t : Tid} {cnd : Option Cond} {
 theorem C05_timedout {cfg : Cfg} {s s' : State} {t : Tid} {cnd : Option Cond} {dl : Option Int} {note : Bool}
     (hr : Reachable cfg s) (h : step cfg s (.ret t (.wait cnd dl note) (.outc .timedout)) = .ok s') :
     ∃ d, dl = some d ∧ d ≤ s.now := by
-  obtain ⟨c, cit, heq, -, rfl, -, ho, -⟩ := wait_ret_inv h
+  obtain ⟨c, cit, heq, -, rfl, -, ho, -, -⟩ := wait_ret_inv h
   have inv2 := reachable_inv2 hr
   have ht := (inv2 t).1 c (by rw [heq]; rfl)
   simp only [Res.outc.injEq] at ho
@@ -140,7 +144,7 @@ theorem C05_timedout {cfg : Cfg} {s s' : State} {t : Tid} {cnd : Option Cond} {d
 theorem C05_cancelled {cfg : Cfg} {s s' : State} {t : Tid} {cnd : Option Cond} {dl : Option Int} {note : Bool}
     (hr : Reachable cfg s) (h : step cfg s (.ret t (.wait cnd dl note) (.outc .cancelled)) = .ok s') :
     ∃ c cit, s.pc t = .mwRet c cit ∧ c.saw = true := by
-  obtain ⟨c, cit, heq, -, -, -, ho, -⟩ := wait_ret_inv h
+  obtain ⟨c, cit, heq, -, -, -, ho, -, -⟩ := wait_ret_inv h
   have inv1 := reachable_inv1 hr
   have hok := inv1.pcok t; rw [heq] at hok
   simp only [Res.outc.injEq] at ho
